@@ -227,8 +227,9 @@ def solve_vc(pc, formula, timeout_ms, symbols):
                 md[n] = f"<{e}>"
         return md
 
+    first_budget = min(timeout_ms, 4000)  # a short first attempt: VCs the default tactic stalls on often fall to qfnia at once
     s = z3.Solver()
-    s.set("timeout", timeout_ms)
+    s.set("timeout", first_budget)
     s.add(*pc)
     s.add(z3.Not(formula))
     r = s.check()
@@ -260,6 +261,16 @@ def solve_vc(pc, formula, timeout_ms, symbols):
                 return "sat", model_of(s2), time.time() - t0, "z3-qfnia"
     except z3.Z3Exception:
         pass
+    if first_budget < timeout_ms:  # the default tactic again, with the full budget
+        s = z3.Solver()
+        s.set("timeout", timeout_ms)
+        s.add(*pc)
+        s.add(z3.Not(formula))
+        r = s.check()
+        if r == z3.unsat:
+            return "unsat", None, time.time() - t0, "z3"
+        if r == z3.sat:
+            return "sat", model_of(s), time.time() - t0, "z3"
     st, _ = cvc5_check(s, timeout_ms)
     if st == "unsat":
         return "unsat", None, time.time() - t0, "cvc5"
